@@ -23,7 +23,9 @@ use vcore::{Args, Report, Scratch, Value, Violation, json};
 type Table = Arc<Vec<Entry>>;
 
 const KEYS: [&[u8]; 3] = [b"a", b"b", b"c"];
-const TSS: [u64; 3] = [3, 2, 1]; // sst order within a key: newest first
+// sst order within a key: newest first.  Both ends of the timestamp domain are in the universe:
+// probes like (key, u64::MAX) coincide with a real entry, and timestamp 0 sits below every read.
+const TSS: [u64; 3] = [u64::MAX, 2, 0];
 const READ_TS: [u64; 5] = [0, 1, 2, 3, u64::MAX];
 
 fn slot_entry(slot: usize, tomb: bool) -> Entry {
@@ -807,7 +809,7 @@ fn main() {
     });
     findings.into_report(&mut total);
     total.bound = json!({
-        "child_entry_universe": "keys {a,b,c} x timestamps {1,2,3} x {value, tombstone}; children are Vec-backed cursors with sst::reference::ReferenceCursor semantics",
+        "child_entry_universe": "keys {a,b,c} x timestamps {0, 2, u64::MAX} x {value, tombstone}; children are Vec-backed cursors with sst::reference::ReferenceCursor semantics",
         "merging": format!("every multiset of 0..={} child tables, pairwise disjoint in (key, timestamp); {}; children in ascending table order, and in reversed order with programs <= {}", plan.max_tables, plan.merging.describe(), plan.reversed_len),
         "concat": format!("every sequence of 1..={} child tables whose concatenation is strictly sorted (empty tables anywhere, tombstone-only tables, and -- as the separately labelled class [key-split-across-tables] -- one key's versions split across adjacent tables); {}", plan.max_tables, plan.concat.describe()),
         "bounds": format!("every single table x all 49 pairs over {{Unbounded, Included/Excluded a|b|c}} (inverted and empty intervals are labelled [empty-interval]); {}", plan.bounds_t.describe()),
